@@ -373,7 +373,7 @@ def putAll : WState → List (Nat × Nat × Obj) → Except Err WState
 
 /-- one object stream: `Alloc`, the members' entries, the stream with `/N`, `/First`;
     `raw` = the bytes of the compressed (and encrypted) object stream -/
-def writeObjStm (s : WState) (items : List (Nat × Nat × Obj)) (raw : Bytes) : Except Err WState :=
+def writeObjStmAt (s : WState) (items : List (Nat × Nat × Obj)) (raw : Bytes) : Except Err WState :=
   match alloc s with
   | none => .error .other
   | some (s1, sRef) =>
@@ -391,6 +391,14 @@ def writeObjStm (s : WState) (items : List (Nat × Nat × Obj)) (raw : Bytes) : 
           match streamWrite s2 raw with
           | .error e => .error e
           | .ok s3 => streamClose s3
+
+/-- numbers chosen by the caller are set aside before the container is allocated: the object
+    stream must not take a member's number (library fix of `WriteCompressed`) -/
+def reserveNumbers (s : WState) (items : List (Nat × Nat × Obj)) : WState :=
+  { s with nextRef := items.foldl (fun n it => max n (it.1 + 1)) s.nextRef }
+
+def writeObjStm (s : WState) (items : List (Nat × Nat × Obj)) (raw : Bytes) : Except Err WState :=
+  writeObjStmAt (reserveNumbers s items) items raw
 
 /-- the splitting loop: more than `maxObjStmObjects` members go into several object streams
     (the first ones full); `raws` = the stream bytes, one per object stream -/
